@@ -22,6 +22,10 @@ TEMPLATES = [
     "select sum(null) filter (where null) from t", "select decode(null)", "select a from t where f(null) = g(null, null)",
     "delete from t where a = f(null)", "select null union select null", "select if(null, null, null)",
     "merge into t using s on t.a = s.a when matched then update set b = null",
+    # NULL inside a window frame bound: these fragments are simplified while the grammar is still matching and again at the end
+    "select sum(x) over (order by b range between interval null day preceding and current row) from t",
+    "select sum(x) over (order by b range f(null) preceding) from t",
+    "select sum(x) over (order by b range between coalesce(null, 1) preceding and g(2, null) following) from t",
     # several chunks of one call (the DELIMITER pre-pass splits the text; every chunk has its own NULL slots)
     "delimiter $$\nselect f(null) from t $$\nselect 1 $$", "insert into t values (1, null);\ndelimiter //\nselect case when a then null else 1 end //",
     "delimiter $$\ncreate table t (a int default null) $$\ndelimiter ;\n", "select null; select f(null); select 2",
@@ -181,7 +185,10 @@ def run(ctx):
             ctx.count(max(n, 1))
             if n:
                 ctx.count(0, (sql, mode, ac, json.dumps(fmap)))
-            # model correspondence with two of the null values
+            # model correspondence with two of the null values (not for frame bounds that hold a NULL: those fragments are simplified while the grammar
+            # is still matching, their slots are recorded before the raw result that the model sees exists; the oracle above decides them)
+            if re.search(r"\brange\b.*?\bnull\b.*?\b(preceding|following)\b", sql, re.I | re.S):
+                continue
             for nn in ("default", "nest"):
                 st, val, cap, x = l2.run_case(parser, sql, mode, nn, fmap, all_columns=ac)
                 if st != "ok" or len(cap) != 1:
